@@ -148,7 +148,8 @@ impl<'ast, 'decls> ResolveIterator<'ast, 'decls>
                 let bankdef = defs.bankdefs.get(self.bank_ref);
                 if let Some(label_align) = bankdef.label_align
                 {
-                    if decl.depth == 0
+                    if decl.depth == 0 &&
+                        matches!(ast_symbol.kind, asm::AstSymbolKind::Label)
                     {
                         let span = ast_symbol.decl_span;
                         let bank = defs.bankdefs.get(self.bank_ref);
